@@ -128,6 +128,21 @@ Theorem c10_update_cells : forall s table, wf s -> forall o selects omits ps sto
 Proof. exact update_cells_permitted. Qed.
 Print Assumptions c10_update_cells.
 
+(* FirstOrCreate with Assign on a found record changes only that record (the first row the chain's
+   conditions select), whatever Model the caller put on the chain; FirstOrInit changes nothing *)
+Theorem c10_first_or_create_assign_cells : forall s table, wf s -> forall selects omits ps stored mk wh x,
+  In x (out_cells (run_op s table OFocAssign selects omits ps stored mk wh)) ->
+  In (c_row x) (firstn 1 (targeted stored mk wh))
+  /\ ((exists f, In f s /\ has_col f = true /\ c_col x = f_db f /\ updatable f = true)
+      \/ lookup_field s (c_col x) = None).
+Proof. exact foc_assign_cells. Qed.
+Print Assumptions c10_first_or_create_assign_cells.
+
+Theorem c10_first_or_init_no_cells : forall s table selects omits ps stored mk wh,
+  out_cells (run_op s table OFoiAssign selects omits ps stored mk wh) = [].
+Proof. exact foi_assign_cells. Qed.
+Print Assumptions c10_first_or_init_no_cells.
+
 Theorem c10_key_match : forall mk ks, key_match mk ks = true ->
   forall m k, In (m, k) (combine mk ks) -> m = 0 \/ k = m.
 Proof. exact key_match_spec. Qed.
